@@ -277,9 +277,6 @@ func (p *Program) prove(pr *Prover, re *regexp.Regexp, prop string, verbose bool
 	// lemmas of the contract files: closed formulas proved from the axioms (definitions) alone, once, and then
 	// available to every VC like an axiom
 	if re == nil || re.MatchString("lemmas") {
-		lvc := newVC(p.u, p.cs, "lemmas")
-		lvc.declare("R0", "Bool")
-		lvc.assume("R0")
 		for i, ax := range p.cs.Axioms {
 			if ax.Kind != "lemma" {
 				continue
@@ -330,20 +327,29 @@ func (p *Program) prove(pr *Prover, re *regexp.Regexp, prop string, verbose bool
 				jobs = append(jobs, func() *Verdict { return pr.dischargeInduct(ivc, o, iprelude, axioms) })
 				continue
 			}
+			// every lemma gets its own small VC (own Skolem constants and own unfoldings of recursive definitions)
+			lvc := newVC(p.u, p.cs, "lemmas")
+			lvc.declare("R0", "Bool")
+			lvc.assume("R0")
 			env := &SpecEnv{vc: lvc, vars: map[string]TV{}, st: State{}}
 			body := ax.E
 			// an outermost universal quantifier is replaced by fresh constants (the goal becomes quantifier-free,
 			// so the complete string procedures apply)
+			bad := false
 			if q, ok := body.(*EQuant); ok && q.Forall {
 				for _, qv := range q.Vars {
 					ty, err := p.u.tyOfTypeExpr(qv.Ty, p.cs)
 					if err != nil {
 						res.Errors = append(res.Errors, fmt.Sprintf("lemmas: %s:%d: %v", ax.File, ax.Line, err))
+						bad = true
 						continue
 					}
 					env.vars[qv.Name] = TV{lvc.fresh("sk_"+qv.Name, ty.Sort()), ty}
 				}
 				body = q.Body
+			}
+			if bad {
+				continue
 			}
 			tv, err := env.tr(body)
 			if err != nil {
@@ -354,29 +360,25 @@ func (p *Program) prove(pr *Prover, re *regexp.Regexp, prop string, verbose bool
 			if lbl == "" {
 				lbl = fmt.Sprint(i)
 			}
-			lvc.oblige(&Oblig{Name: "lemmas/" + lbl, Kind: "lemma", Props: ax.Props, Guard: "R0", Goal: tv.T, Clause: ax.Src, Where: fmt.Sprintf("%s:%d", ax.File, ax.Line)})
-		}
-		if len(lvc.obligs) > 0 {
+			o := &Oblig{Name: "lemmas/" + lbl, Kind: "lemma", Props: ax.Props, Guard: "R0", Goal: tv.T, Clause: ax.Src, Where: fmt.Sprintf("%s:%d", ax.File, ax.Line)}
+			lvc.oblige(o)
+			if prop != "" && !hasProp(o.Props, prop) {
+				continue
+			}
+			if p.oblRe != nil && !p.oblRe.MatchString(o.Name) {
+				continue
+			}
 			if !containsStr(res.Functions, "lemmas") {
 				res.Functions = append(res.Functions, "lemmas")
 			}
+			if hasProp(o.Props, "thorough") && pr.tier != "thorough" && p.oblRe == nil {
+				res.Assumptions = append(res.Assumptions, "lemma "+o.Name+" is checked in the thorough tier only (string reasoning, no code involved): "+o.Clause)
+				continue
+			}
 			lvc.rootAssum = append(lvc.rootAssum, lvc.unfoldInstances()...)
 			prelude := lvc.prelude(p.cs.RawSMT)
-			for _, o := range lvc.obligs {
-				o := o
-				if prop != "" && !hasProp(o.Props, prop) {
-					continue
-				}
-				if p.oblRe != nil && !p.oblRe.MatchString(o.Name) {
-					continue
-				}
-				if hasProp(o.Props, "thorough") && pr.tier != "thorough" && p.oblRe == nil {
-					res.Assumptions = append(res.Assumptions, "lemma "+o.Name+" is checked in the thorough tier only (string reasoning, no code involved): "+o.Clause)
-					continue
-				}
-				axioms := p.axiomsForLemma(lvc, o)
-				jobs = append(jobs, func() *Verdict { return pr.discharge(lvc, o, prelude, axioms) })
-			}
+			axioms := p.axiomsForLemma(lvc, o)
+			jobs = append(jobs, func() *Verdict { return pr.discharge(lvc, o, prelude, axioms) })
 		}
 	}
 	all := pr.dischargeAll(append(jobs, canaries...))
